@@ -50,7 +50,8 @@ def kind_of(v):
 
 
 def histories(rnd, n, maxlen, kinds):
-    ops = ("setattr", "add_named", "add_name_arg", "get", "bad_value", "banned", "delattr", "reuse_obj")
+    ops = ("setattr", "add_named", "add_name_arg", "get", "bad_value", "banned", "delattr", "reuse_obj", "reuse_obj",
+           "rename_by_hand")
     for _ in range(n):
         yield tuple((rnd.choice(ops[:3] * 3 + ops[3:]), rnd.choice(NAMES), rnd.choice(kinds))
                     for _ in range(rnd.randint(1, maxlen)))
@@ -63,6 +64,11 @@ def small_histories(kinds):
                 for op2 in ("setattr", "add_named", "add_name_arg"):
                     yield ((op1, "a", k1), (op2, "a", k2), ("get", "a", k1))
                     yield ((op1, "a", k1), (op1, "b", k2), (op2, "a", k2))
+            # an object held under two names, or re-named by hand, when one of its names is re-used for another kind
+            yield (("setattr", "a", k1), ("reuse_obj", "b", k1), ("setattr", "a", k2), ("get", "b", k1))
+            yield (("setattr", "a", k1), ("reuse_obj", "b", k1), ("setattr", "b", k2), ("get", "a", k1))
+            yield (("setattr", "a", k1), ("rename_by_hand", "a", k1), ("setattr", "a", k2))
+            yield (("setattr", "a", k1), ("setattr", "c", k1), ("rename_by_hand", "a", k1), ("add_name_arg", "a", k2))
 
 
 def check_history(case):
@@ -132,7 +138,17 @@ def check_history(case):
                 else:
                     return ("rejects.delattr", f"attribute deletion accepted at {where}")
             elif op == "reuse_obj":
-                continue
+                # the same object under a second name (aliasing): both names then hold it
+                if not spec:
+                    continue
+                src = sorted(spec)[rnd.randrange(len(spec))]
+                v = spec[src]
+                setattr(m, name, v)
+                spec[name] = v
+            elif op == "rename_by_hand":
+                # the object's own `name` field changes; the namespace keys do not
+                if name in spec:
+                    spec[name].name = "renamed_" + name
         except (TypeError, RuntimeError) as e:
             return (f"raises.{type(e).__name__}", f"{type(e).__name__}: {str(e)[:100]} at {where}")
         # run-time Inv_ns
